@@ -299,6 +299,20 @@ func registerMisc(e *Engine) {
 			return nil, pan
 		}
 		var k *Term
+		if cb, ok := ex.st["onintn"].(Value); ok && cb != nil && src.fresh {
+			r, pan := ex.callAny(cb, []Value{n}, nil)
+			if pan != nil {
+				return nil, pan
+			}
+			k = r.(*Term)
+			ex.tape = append(ex.tape, Draw{Name: "rand_intn", Kind: "intn", Term: k, Len: n, Width: 64})
+			if in := c.And(c.Sle(c64(c, 0), k), c.Slt(k, n)); !in.IsTrue() {
+				if in.IsFalse() || ex.feasible(c.Not(in)) != Unsat {
+					ex.unsupported("OnIntn callback returned a value outside [0,n)")
+				}
+			}
+			return k, nil
+		}
 		if src.fresh {
 			k = c.Fresh("intn", BV(64))
 			ex.tape = append(ex.tape, Draw{Name: "rand_intn", Kind: "intn", Term: k, Len: n, Width: 64})
@@ -307,6 +321,10 @@ func registerMisc(e *Engine) {
 		}
 		ex.addAxiom(c.And(c.Sle(c64(c, 0), k), c.Slt(k, n)))
 		return k, nil
+	})
+	e.reg(rtPkg+".OnIntn", func(ex *Exec, fn *ssa.Function, args []Value) (Value, *PanicV) {
+		ex.st["onintn"] = args[0]
+		return nil, nil
 	})
 	e.reg("(*math/rand.Rand).Int63", func(ex *Exec, fn *ssa.Function, args []Value) (Value, *PanicV) {
 		src, pan := ex.randInt63(args[0])
